@@ -105,6 +105,8 @@ def run_o1(cfg, tier):
     keys = [("ref", j) for j in range(nref)] + [("rov", i, ch) for i in range(S) for ch in range(nchs[i])]
 
     for reflist in layouts(S, nref, nrov):
+        if tally.stop:
+            break
         reflist = [list(r) for r in reflist]
         order = expected_order(reflist, nchs)
         state = {}
@@ -204,6 +206,8 @@ def run_o2(cfg, tier):
     tally = Tally(W, ["flatten_sns_names"])
     ex = Explorer()
     for reflist in layouts(S, nref, nrov):
+        if tally.stop:
+            break
         reflist = [list(r) for r in reflist]
         order = expected_order(reflist, nchs)
         state = {}
